@@ -1,8 +1,8 @@
 /- Line-protocol model driver for C13 (number <-> text).  Same protocol as harness/C13/scan.c:
     num <base> <hex>      -> "ok <bits16>" | "err"
     i64 <hex> / u64 <hex> -> "ok <dec>" | "err"
-    p17 <bits16>          -> "<text> <text> <text> <bits16 read back>"
-    pint <bits16>         -> "<text> <bits16 read back>"      (integer-valued double, |x| <= 2^53)
+    p17 <bits16>          -> "<text> x5 <bits16 read back>"
+    pint <bits16>         -> "<text> x12 <bits16 read back>"      (integer-valued double, |x| <= 2^53)
     s64rt <dec> / u64rt <dec> -> "<text> ok <dec>" | "<text> err"
     big <base> <ex> <hex> -> "n first d0 d1 ..."   (digit array after the scaling loops of convert)
 -/
@@ -51,7 +51,7 @@ def step (_ : Unit) (toks : List String) : Unit × String :=
     | some bits =>
       let t := print17 bits
       let ts := String.ofList t
-      ((), ts ++ " " ++ ts ++ " " ++ ts ++ " " ++ showScan (scanNumberBase (t.map (·.toNat)) 0))
+      ((), String.intercalate " " (List.replicate 5 ts) ++ " " ++ showScan (scanNumberBase (t.map (·.toNat)) 0))
     | none => ((), "bad-op")
   | ["pint", h] =>
     match parseHexNat h with
@@ -60,7 +60,8 @@ def step (_ : Unit) (toks : List String) : Unit × String :=
       let (m, e) := decodeBits (bits % 0x8000000000000000)
       let v := if e ≥ 0 then m <<< e.toNat else m >>> (-e).toNat
       let t := if v = 0 then "0" else (if neg then "-" else "") ++ toString v
-      ((), t ++ " " ++ showScan (scanNumberBase (bytesOf t) 0))
+      let tj := if v = 0 ∧ neg then "-0" else t   -- jdn keeps the sign of zero
+      ((), String.intercalate " " [t, t, t, t, t, tj, t, t, t, t, tj, t] ++ " " ++ showScan (scanNumberBase (bytesOf t) 0))
     | none => ((), "bad-op")
   | ["s64rt", d] =>
     match d.toInt? with
